@@ -144,13 +144,21 @@ class LunrIndexWriter:
         # Removing the stemmer from the search pipeline, see https://github.com/yeraydiazdiaz/lunr.py/issues/112
         builder.search_pipeline.reset()
 
-        index = lunr(
-            ref='qname',
-            fields=[{'field_name':name, 'boost':self._BOOSTS[name]} for name in self.fields],
-            documents=self.get_corpus(), 
-            builder=builder)   
-        
-        serialized_index = json.dumps(index.serialize())
+        documents = self.get_corpus()
+        if documents:
+            index = lunr(
+                ref='qname',
+                fields=[{'field_name':name, 'boost':self._BOOSTS[name]} for name in self.fields],
+                documents=documents, 
+                builder=builder)   
+            serialized_index = json.dumps(index.serialize())
+        else:
+            # Nothing is visible (every root is hidden): lunr cannot build an index without
+            # documents (it divides by their number). Write an empty index instead of crashing.
+            from lunr import __TARGET_JS_VERSION__
+            serialized_index = json.dumps({
+                'version': __TARGET_JS_VERSION__, 'fields': list(self.fields),
+                'fieldVectors': [], 'invertedIndex': [], 'pipeline': []})
 
         with self.output_file.open('w', encoding='utf-8') as fobj:
             fobj.write(serialized_index)
